@@ -65,7 +65,7 @@ def case_strategy():
         st.tuples(st.just("update"), st.lists(pairs(), max_size=2), pairs(2)).map(list),
         st.tuples(st.just("set"), raw_names(), values()).map(list),
     )
-    return st.fixed_dictionaries({"args": st.lists(arg, max_size=5), "kw": pairs(3), "later": st.lists(later, max_size=4), "via": st.sampled_from(["Tag", "div", "span"])})
+    return st.fixed_dictionaries({"args": st.lists(arg, max_size=5), "kw": pairs(3), "later": st.lists(later, max_size=4), "via": st.sampled_from(["Tag", "div", "span"]), "poison": st.sampled_from([None, None, "key", "value", "update-key", "nonmapping"])})
 
 
 def val_obj(v):
@@ -157,6 +157,20 @@ def body(case, note):
             c = build(payload)
             args_real.append(c)
             children_real.append(c)
+    poison = case.get("poison")
+    if poison:
+        # an invalid call earlier in the process (it fails, whatever the exception): the next call must be unaffected
+        try:
+            if poison == "key":
+                h.Tag("div", {"class": "stale", "data_x": 1, "x": "left-over"}, {7: "non-string name"})
+            elif poison == "value":
+                h.Tag("div", {"class": "stale", "x": "left-over"}, {"y": object()})
+            elif poison == "update-key":
+                h.Tag("p").attrs.update({"class": "stale", "x": "left-over"}, {None: "v"})
+            else:
+                h.Tag("p").attrs.update({"class": "stale", "x": "left-over"}, [("a", "b")])
+        except Exception:  # noqa
+            pass
     kw = uniq(case["kw"])
     seq += kw
     kwr = {r: val_obj(v) for r, v in kw}
@@ -203,7 +217,7 @@ def body(case, note):
         pos = out.index('"', pos + len(lit)) + 1 if all(p[0] == "plain" for p in model[k]) else out.index('"', pos + len(lit)) + 1
         if not all(p[0] == "plain" for p in model[k]):
             break
-    note(collide and dropped, "later-replaces" if replaced else "", "collision" if collide else "", "children-interleaved" if children_real and any(a[0] == "d" for a in case["args"]) else "", "via:" + case["via"])
+    note(collide and dropped, "later-replaces" if replaced else "", "collision" if collide else "", "children-interleaved" if children_real and any(a[0] == "d" for a in case["args"]) else "", "via:" + case["via"], "after-failed-call" if poison else "")
 
 
 def selftest():
@@ -219,5 +233,5 @@ RULE = (
 )
 
 CLAUSES = [
-    Clause("model", body, strategy=case_strategy, quick=1200, thorough=20000, shards_quick=4, required=("later-replaces", "collision", "children-interleaved"), rule="see RULE"),
+    Clause("model", body, strategy=case_strategy, quick=1200, thorough=20000, shards_quick=4, required=("later-replaces", "collision", "children-interleaved", "after-failed-call"), rule="see RULE"),
 ]
